@@ -25,7 +25,7 @@ Explained(e) ==
     [] e.ev = "Tick" -> Tick(e.n)
     [] OTHER -> FALSE
 
-Chk(prop, name, holds, e) == holds \/ PrintT(<<"VIOL", prop, name, l, "-", e.ev>>)
+Chk(prop, name, holds, e) == IF holds THEN TRUE ELSE PrintT(<<"VIOL", prop, name, l, "-", e.ev>>)
 
 TStep ==
   /\ l <= Len(Rec)
